@@ -532,3 +532,132 @@ Proof.
   induction l as [|a t IH]; [reflexivity|]. destruct t as [|b t']; [reflexivity|].
   intros [Hab Ht]. cbn [increasingb]. rewrite (proj2 (Nat.ltb_lt a b) Hab). apply IH. exact Ht.
 Qed.
+
+(* the boolean check is also sound (used to discharge wf_cs for concrete representations) *)
+Lemma monotoneb_sound l : monotoneb l = true -> monotone l.
+Proof.
+  induction l as [|a t IH]; [intros; exact I|]. destruct t as [|b t']; [intros; exact I|].
+  cbn [monotoneb monotone]. intros H. apply andb_true_iff in H. destruct H as [H1 H2].
+  split; [apply Nat.leb_le; exact H1|apply IH; exact H2].
+Qed.
+
+Lemma ndup_sound l : ndup l = false -> NoDup l.
+Proof.
+  induction l as [|x t IH]; intros H; [constructor|]. cbn [ndup] in H. apply orb_false_iff in H. destruct H as [H1 H2].
+  constructor; [|apply IH; exact H2]. intros Hi. apply nmem_In in Hi. congruence.
+Qed.
+
+Theorem wf_csb_wf_cs r : wf_csb r = true -> wf_cs r.
+Proof.
+  unfold wf_csb, wf_cs. intros H. repeat (apply andb_true_iff in H; destruct H as [H ?]).
+  repeat match goal with
+         | X : Nat.eqb _ _ = true |- _ => apply Nat.eqb_eq in X
+         end.
+  split; [assumption|]. split; [assumption|]. split; [apply monotoneb_sound; assumption|].
+  split; [assumption|]. split; [assumption|]. split.
+  - apply Forall_forall. intros j Hj.
+    match goal with X : forallb (fun j => Nat.ltb j _) _ = true |- _ => rewrite forallb_forall in X; apply Nat.ltb_lt; apply X; exact Hj end.
+  - apply Forall_forall. intros s Hs.
+    match goal with X : forallb (fun s => negb (ndup _)) _ = true |- _ => rewrite forallb_forall in X; specialize (X s Hs);
+      apply negb_true_iff in X; apply ndup_sound; exact X end.
+Qed.
+
+(* ------------------------------------------------------------------ sort_indices, of_dense *)
+Lemma find_insert j e s : find_idx j (insert_entry e s) =
+  if Nat.eqb (fst e) j then (if existsb (fun x => Nat.ltb (fst x) (fst e) && Nat.eqb (fst x) j) s then find_idx j s else Some (snd e))
+  else find_idx j s.
+Proof.
+  destruct e as [k v]. cbn [fst snd]. induction s as [|[k' v'] t IH]; cbn [insert_entry find_idx existsb fst snd].
+  - destruct (Nat.eqb k j); reflexivity.
+  - destruct (Nat.leb k k') eqn:L; cbn [find_idx].
+    + destruct (Nat.eqb k j) eqn:E; [|reflexivity].
+      apply Nat.eqb_eq in E. subst j. apply Nat.leb_le in L.
+      replace (Nat.ltb k' k) with false by (symmetry; apply Nat.ltb_ge; exact L). cbn [andb orb].
+      (* no later entry with a smaller index and index k can exist: fst x < k and fst x = k is impossible *)
+      assert (Z0 : forall l, existsb (fun x : entry => Nat.ltb (fst x) k && Nat.eqb (fst x) k) l = false).
+      { induction l as [|x l IHl]; [reflexivity|]. cbn [existsb]. rewrite IHl, orb_false_r.
+        destruct (Nat.eqb (fst x) k) eqn:E2; [apply Nat.eqb_eq in E2; rewrite E2, Nat.ltb_irrefl; reflexivity|apply andb_false_r]. }
+      rewrite Z0. reflexivity.
+    + rewrite IH. apply Nat.leb_gt in L. destruct (Nat.eqb k j) eqn:E.
+      * apply Nat.eqb_eq in E. subst j. destruct (Nat.eqb k' k) eqn:E2; [apply Nat.eqb_eq in E2; lia|].
+        rewrite andb_false_r. cbn [orb]. reflexivity.
+      * reflexivity.
+Qed.
+
+Lemma insert_fst_In e s j : In j (map fst (insert_entry e s)) <-> j = fst e \/ In j (map fst s).
+Proof.
+  induction s as [|x t IH]; cbn [insert_entry map]; [simpl; intuition|].
+  destruct (Nat.leb (fst e) (fst x)); cbn [map In]; [intuition|]. rewrite IH. cbn [map In]. intuition.
+Qed.
+
+Lemma find_insert_nodup j e s : ~ In (fst e) (map fst s) ->
+  find_idx j (insert_entry e s) = if Nat.eqb (fst e) j then Some (snd e) else find_idx j s.
+Proof.
+  intros H. rewrite find_insert. destruct (Nat.eqb (fst e) j) eqn:E; [|reflexivity]. apply Nat.eqb_eq in E. subst j.
+  match goal with |- (if ?c then _ else _) = _ => destruct c eqn:X end; [|reflexivity].
+  exfalso. apply existsb_exists in X. destruct X as [x [Hx Hc]]. apply andb_true_iff in Hc. destruct Hc as [_ Hc].
+  apply Nat.eqb_eq in Hc. apply H. rewrite <- Hc. apply in_map. exact Hx.
+Qed.
+
+Lemma sort_seg_fst_In s j : In j (map fst (sort_seg s)) <-> In j (map fst s).
+Proof.
+  induction s as [|e t IH]; [reflexivity|]. cbn [sort_seg fold_right]. fold (sort_seg t).
+  rewrite insert_fst_In, IH. cbn [map In]. intuition.
+Qed.
+
+Lemma lookup_sort_seg s j : NoDup (map fst s) -> lookup j (sort_seg s) = lookup j s.
+Proof.
+  unfold lookup. induction s as [|[k v] t IH]; intros H; [reflexivity|]. inversion H as [|? ? Hk Ht]; subst.
+  cbn [sort_seg fold_right]. fold (sort_seg t).
+  rewrite find_insert_nodup by (cbn [fst]; intros Hi; apply Hk; apply sort_seg_fst_In; exact Hi).
+  cbn [fst snd find_idx]. destruct (Nat.eqb k j); [reflexivity|apply IH; exact Ht].
+Qed.
+
+Lemma insert_increasing e s : increasing (map fst s) -> ~ In (fst e) (map fst s) ->
+  increasing (map fst (insert_entry e s)).
+Proof.
+  induction s as [|x t IH]; intros Hs Hn; [exact I|]. cbn [insert_entry].
+  destruct (Nat.leb (fst e) (fst x)) eqn:L.
+  - apply Nat.leb_le in L. cbn [map]. split; [|exact Hs].
+    assert (fst e <> fst x) by (intros E; apply Hn; left; symmetry; exact E). lia.
+  - apply Nat.leb_gt in L. cbn [map]. apply increasing_cons.
+    + intros y Hy. apply insert_fst_In in Hy. destruct Hy as [->|Hy]; [exact L|].
+      pose proof (increasing_lt_all _ _ Hs) as F. rewrite Forall_forall in F. apply F. exact Hy.
+    + apply IH; [eapply increasing_tail; exact Hs|]. intros Hi. apply Hn. right. exact Hi.
+Qed.
+
+Lemma sort_seg_increasing s : NoDup (map fst s) -> increasing (map fst (sort_seg s)).
+Proof.
+  induction s as [|e t IH]; intros H; [exact I|]. inversion H as [|? ? He Ht]; subst.
+  cbn [sort_seg fold_right]. fold (sort_seg t). apply insert_increasing; [apply IH; exact Ht|].
+  intros Hi. apply He. apply sort_seg_fst_In. exact Hi.
+Qed.
+
+Lemma sort_seg_ok mn s : seg_ok mn s -> seg_ok mn (sort_seg s).
+Proof.
+  intros [Hn Hr]. split; [apply increasing_NoDup; apply sort_seg_increasing; exact Hn|].
+  apply Forall_forall. intros e He. rewrite Forall_forall in Hr.
+  assert (G : forall s e, In e (sort_seg s) -> In e s).
+  { clear. induction s as [|x t IH]; intros e He; [contradiction|]. cbn [sort_seg fold_right] in He. fold (sort_seg t) in He.
+    assert (I2 : forall s0, In e (insert_entry x s0) -> e = x \/ In e s0).
+    { induction s0 as [|y t0 IH0]; cbn [insert_entry]; [simpl; intuition|].
+      destruct (Nat.leb (fst x) (fst y)); cbn [In]; [intuition|]. intros [H|H]; [intuition|]. apply IH0 in H. intuition. }
+    apply I2 in He. destruct He as [->|He]; [left; reflexivity|right; apply IH; exact He]. }
+  apply Hr. apply G. exact He.
+Qed.
+
+Theorem sort_indices_ok r : wf_cs r ->
+  wf_cs (sort_indices r) /\ sorted_cs (sort_indices r) /\ dense_of (sort_indices r) = dense_of r
+  /\ major (sort_indices r) = major r /\ minor (sort_indices r) = minor r.
+Proof.
+  intros W. pose proof (wf_segs r W) as F. unfold sort_indices.
+  split; [|split; [|split; [|split]]].
+  - apply wf_of_segs. apply Forall_forall. intros s Hs. apply in_map_iff in Hs. destruct Hs as [s0 [<- Hs0]].
+    apply sort_seg_ok. rewrite Forall_forall in F. apply F. exact Hs0.
+  - unfold sorted_cs. rewrite segs_of_segs. apply Forall_forall. intros s Hs. apply in_map_iff in Hs.
+    destruct Hs as [s0 [<- Hs0]]. apply sort_seg_increasing. rewrite Forall_forall in F. apply (F s0 Hs0).
+  - rewrite dense_of_of_segs. unfold dense_of, dense_of_segs. rewrite map_map. apply map_ext_in. intros s Hs.
+    unfold row_of_seg. apply map_ext. intros j. apply lookup_sort_seg. rewrite Forall_forall in F. apply (F s Hs).
+  - cbn [of_segs major]. rewrite map_length. apply segs_length.
+  - reflexivity.
+Qed.
